@@ -181,6 +181,8 @@ def _values(depth):
             out += ['{%s}' % x] if x != 'None' or True else []
     for x, y in itertools.product(sub[:8], repeat=2):
         out += ['[%s, %s]' % (x, y), '(%s, %s)' % (x, y), "{'a': %s, 'b': %s}" % (x, y)]
+        # keys that are not (all) string literals: None, a tuple, numbers of two kinds
+        out += ["{None: %s, 'a': %s}" % (x, y), "{(1, 2): %s, 'k': %s}" % (x, y), "{1: %s, 2.5: %s}" % (x, y)]
     out += ['[]', '()', '{}', 'set()']
     seen, res = set(), []
     for v in out:
